@@ -46,7 +46,7 @@ def n_tables(tier):
 # ---- operation universe ----------------------------------------------------
 
 def _ddof(rng):
-    return rng.choice([1, 1, 1, 0])
+    return rng.choice([1, 1, 1, 0, 2, 3])
 
 
 def gen_reduction(rng):
